@@ -132,11 +132,27 @@ def real_parsed(w, st):
     return p
 
 
+def flush_drift(H):
+    """report the model/real disagreement noted by sync_with_model -- called by the checks AFTER their oracles judged the real
+    behaviour: a run that violates the property is reported as such, a disagreement on a run that satisfies it is MODEL-DRIFT"""
+    p = getattr(H, 'pending_drift', None)
+    H.pending_drift = None
+    if p:
+        H.drift(p[0], p[1], **p[2])
+        return True
+    return False
+
+
 def sync_with_model(H, st0, lst, opts, nocopy=False, prehash=False, expect_fail=None):
     """(1) a real sync killed by the shim before its first parity write leaves the post-scan state in the content file;
     (2) the real sync with the scenario's options; the model predicts both states from st0 + listing (+ the data for (2)).
-    Returns the Result of (2), or False after reporting a violation."""
+    Returns the Result of (2) (a disagreement is left in H.pending_drift for flush_drift), or False after a model failure."""
     w, a = H.w, H.w.arr
+    H.pending_drift = None
+
+    def note(tag, what, **kw):
+        if H.pending_drift is None:
+            H.pending_drift = (tag, what, kw)
     extra = (['-N'] if nocopy else []) + (['-h'] if prehash else [])
     # everything the model needs, serialised BEFORE the tool runs
     c_toks = w.ser_content(st0)
@@ -160,14 +176,13 @@ def sync_with_model(H, st0, lst, opts, nocopy=False, prehash=False, expect_fail=
             return False
         H.nmodel += 1
         if m['aborted']:
-            H.drift('drift_abort', 'the scan model reaches an os_abort path of scan.c, the real sync exits %d' % r0.rc, request=m['request'][:6000])
-            return False
-        d = first_diff(m['post' if killed else 'final'], real_parsed(w, st1), w.names)
+            note('drift_abort', 'the scan model reaches an os_abort path of scan.c, the real sync exits %d' % r0.rc, request=m['request'][:6000])
+            m = None
+        d = first_diff(m['post' if killed else 'final'], real_parsed(w, st1), w.names) if m else None
         if d:
-            H.drift('drift_scan', '%s predicted by the scan model differs from the real one: %s'
-                    % ('post-scan content (states, positions, past hashes)' if killed else 'content after a sync that needed no parity write', d),
-                    model=m['post' if killed else 'final'], real=real_parsed(w, st1), request=m['request'][:8000])
-            return False
+            note('drift_scan', '%s predicted by the scan model differs from the real one: %s'
+                 % ('post-scan content (states, positions, past hashes)' if killed else 'content after a sync that needed no parity write', d),
+                 model=m['post' if killed else 'final'], real=real_parsed(w, st1), request=m['request'][:8000])
         H.stats['post_scan_compared'] = H.stats.get('post_scan_compared', 0) + 1
         st0 = st1
         c_toks = w.ser_content(st1)
@@ -184,16 +199,14 @@ def sync_with_model(H, st0, lst, opts, nocopy=False, prehash=False, expect_fail=
         return False
     H.nmodel += 1
     if m['aborted']:
-        H.drift('drift_abort', 'the scan model reaches an os_abort path of scan.c, the real sync exits %d' % r.rc, request=m['request'][:6000])
-        return False
+        note('drift_abort', 'the scan model reaches an os_abort path of scan.c, the real sync exits %d' % r.rc, request=m['request'][:6000])
+        return r
     d = first_diff(m['final'], real_parsed(w, st2), w.names)
     if d:
-        H.drift('drift_sync', 'content after `sync %s` predicted by scan model + sync loop model differs from the real one: %s' % (' '.join(list(opts) + extra), d),
-                model=m['final'], real=real_parsed(w, st2), request=m['request'][:8000])
-        return False
-    if bool(m['fails']) != (r.rc != 0):
-        H.drift('drift_status', 'the model predicts a %s sync (errors hash %d/%d/%d loop %d/%d/%d), the real one exits %d'
-                % ('failing' if m['fails'] else 'successful', m['herr'], m['hsilent'], m['hio'], m['err'], m['silent'], m['io'], r.rc), request=m['request'][:8000])
-        return False
+        note('drift_sync', 'content after `sync %s` predicted by scan model + sync loop model differs from the real one: %s' % (' '.join(list(opts) + extra), d),
+             model=m['final'], real=real_parsed(w, st2), request=m['request'][:8000])
+    elif bool(m['fails']) != (r.rc != 0):
+        note('drift_status', 'the model predicts a %s sync (errors hash %d/%d/%d loop %d/%d/%d), the real one exits %d'
+             % ('failing' if m['fails'] else 'successful', m['herr'], m['hsilent'], m['hio'], m['err'], m['silent'], m['io'], r.rc), request=m['request'][:8000])
     H.last_model = m
     return r
